@@ -301,6 +301,19 @@ def main():
             raise PanicFound("str slicing", None)
         return r[1]
 
+    def m_str_index_incl(e, m, a):
+        # `s[a..=b]` is `s[a..b+1]`
+        rng = a[1]
+        return m_str_index_range(e, m, [a[0], [rng[1], rng[2] + 1]])
+
+    def m_str_len(e, m, a):
+        s_ = deref(e, a[0])
+        if isinstance(s_, tuple) and s_[0] in ("abs_string",):
+            return z3.Int("strlen")
+        if isinstance(s_, tuple) and s_[0] in ("str", "string"):
+            return len(s_[1])
+        raise Unsupported("len of %r" % (str(s_)[:60],))
+
     def m_map_get(e, m, a):
         mp, key = deref(e, a[0]), deref(e, a[1])
         cur["node"].events.append(("map_get", mp, key))
@@ -417,6 +430,9 @@ def main():
         (r"^std::option::Option::<Value>::unwrap_or$", lambda e, m, a: a[0][1] if a[0][0] == "Some" else a[1]),
         (r"^core::str::<impl str>::get::<std::ops::Range<usize>>$", m_str_get_range),
         (r"^<str as Index<std::ops::Range<usize>>>::index$", m_str_index_range),
+        (r"^<(?:str|std::string::String) as Index<std::ops::RangeInclusive<usize>>>::index$", m_str_index_incl),
+        (r"^std::ops::RangeInclusive::<usize>::new$", lambda e, m, a: ("range_incl", a[0], a[1])),
+        (r"^(?:std::string::String|core::str::<impl str>)::len$", m_str_len),
         (r"^<std::string::String as Index<std::ops::Range<usize>>>::index$", m_str_index_range),
         (r"^<str as ToString>::to_string$", lambda e, m, a: ("string_of", a[0])),
         (r"^(?:objects::)?Map::get$", m_map_get),
